@@ -861,7 +861,7 @@ def run(chk):
         "behind an operator character (or `# ` behind a word character); no hint comments; no BEGIN / DECLARE / upper-case GO; "
         "#( <= #) at every `;`",
         "per-statement analysis is insensitive to attached comments / blanks / the trailing `;` (property C07) — used as a "
-        "hypothesis of script_eq_statements, exercised by part C",
+        "hypothesis of script_eq_statements_partial, exercised by part C",
         "the metadata provider is falsy (DummyMetaDataProvider without metadata)",
     ]
     return chk.finish(
